@@ -1,5 +1,6 @@
 //! vcheck: one subcommand per property. `vcheck <Cxx> --tier quick|thorough [--only <key>]`
 mod common;
+mod p_derived;
 mod p_evo;
 mod p_values;
 
@@ -26,6 +27,9 @@ fn main() {
     let code = match prop.as_str() {
         "C01" | "C04" | "C07" | "C08" | "C15" => p_values::run(&prop, &tier, only),
         "C03" => p_evo::run(&tier, only),
+        "C02" => p_derived::run_c02(&tier, only),
+        "C13" => p_derived::run_c13(&tier, only),
+        "C14" => p_derived::run_c14(&tier, only),
         "list" => {
             let u = common::load();
             for e in &u.entries {
